@@ -160,7 +160,14 @@ class Server(object):
         self._check_close_code(reply)
 
     def _encrypt_session(self):
-        if not self.io.encrypt_socket_server(self.context):
+        # The handshake is a blocking exchange with the client like any
+        # command: a client that never completes it must not hold the session.
+        try:
+            with Timeout(self.command_timeout):
+                encrypted = self.io.encrypt_socket_server(self.context)
+        except Timeout:
+            encrypted = False
+        if not encrypted:
             return False
         self._call_custom_handler('TLSHANDSHAKE')
         self._call_custom_handler('TLSHANDSHAKE2', self.io.socket)
